@@ -44,6 +44,10 @@ type Options struct {
 type TrackSpec struct {
 	Types map[string]bool // named struct types whose fields are tracked
 	Maps  map[string]bool // "Type.field" map fields whose index/range/delete are accesses
+	// Slices: "Type.field" slice fields whose ELEMENTS are shared state (the backing array is one location):
+	// element stores/loads through the field or through a local copy of its header, append, range, and
+	// handing the slice to a call
+	Slices map[string]bool
 }
 
 type Result struct {
